@@ -243,6 +243,9 @@ def gen_case(seed, i):
             rootargs.insert(at, rng.choice(dirs))
     elif r < 0.45 and files:
         rootargs.insert(at, rng.choice(files))
+    # the input paths may arrive on standard input (--stdin, one per line) instead of as arguments
+    if rng.random() < 0.3 and not any("\n" in r_ for r_ in rootargs):
+        opts["stdin"] = True
     return {"i": i, "world": w.to_json(), "roots": rootargs, "opts": opts}
 
 
@@ -349,6 +352,10 @@ def make_filter(o, W, cwd):
     return f
 
 
+def rel_(rd, s_):
+    return sorted(b2s(ops.relw(rd, p) or p) for p in s_)
+
+
 def run_case(case):
     o = case["opts"]
     viol = []
@@ -385,8 +392,12 @@ def run_case(case):
         got_sets = []
         traces = []
         for pool in ("1", "2", "16"):
-            res = ops.group(rd, [os.path.relpath(os.path.join(rd.wb(), s2b(r)), cwd_b) if k % 2 else os.path.join(rd.wb(), s2b(r)) for k, r in enumerate(case["roots"])],
-                            args + ["--threads", "main:" + pool], env=env, cwd=cwd_b, seed=7, labels=labels)
+            rargs = [os.path.relpath(os.path.join(rd.wb(), s2b(r)), cwd_b) if k % 2 else os.path.join(rd.wb(), s2b(r)) for k, r in enumerate(case["roots"])]
+            if o.get("stdin"):
+                res = ops.group(rd, [], ["--stdin"] + args + ["--threads", "main:" + pool], env=env, cwd=cwd_b, seed=7, labels=labels,
+                                stdin=b"".join(r_ + b"\n" for r_ in rargs))
+            else:
+                res = ops.group(rd, rargs, args + ["--threads", "main:" + pool], env=env, cwd=cwd_b, seed=7, labels=labels)
             traces.append(res.trace)
             if res.timed_out:
                 viol.append({"clause": "terminates", "detail": "group hung with main pool %s" % pool})
@@ -399,6 +410,11 @@ def run_case(case):
                 break
             rep = report.parse_json(res.out)
             got_sets.append({p for g in rep.groups for p in g.paths})
+            listed = [p for g in rep.groups for p in g.paths]
+            if len(listed) != len(set(listed)) and not any(v["clause"] == "listed-once" for v in viol):
+                twice = sorted({p for p in listed if listed.count(p) > 1})
+                viol.append({"clause": "listed-once", "missed": [], "extra": rel_(rd, twice),
+                             "detail": "pool %s: a selected file is listed more than once: %s" % (pool, rel_(rd, twice)[:6])})
         rel = lambda s_: sorted(b2s(ops.relw(rd, p) or p) for p in s_)
         if got_sets:
             g0 = got_sets[0]
@@ -460,7 +476,7 @@ def _nonascii_prefix_pruning(case, violation):
     relative pattern) directories below that prefix are skipped.  Accepted: only missed files, each
     of them below such a non-ASCII literal prefix."""
     o = case["opts"]
-    if o.get("regex") or violation.get("extra") or not violation.get("missed") or not o.get("path"):
+    if o.get("regex") or violation.get("extra") or not violation.get("missed") or not o.get("path") or violation.get("clause") == "listed-once":
         return False
     cwd = o["cwd"].encode("latin-1").decode("utf-8", "replace")
     prefixes = []
@@ -491,7 +507,7 @@ def _follow_links_ignore_route(case, violation):
     name (the file itself or one of its ancestor directories), i.e. one whose selection depends on the
     route by which it was reached."""
     o = case["opts"]
-    if not o.get("L"):
+    if not o.get("L") or violation.get("clause") == "listed-once":
         return False
     diff = list(violation.get("missed", [])) + list(violation.get("extra", []))
     if not diff:
